@@ -1,0 +1,34 @@
+//go:build verif
+
+package traversal
+
+// Contracts for the govc verifier (/verif/DESIGN.md). Package clause and comments only.
+//
+// C17 kernel: the criteria a pattern step hands to the database for one segment are built in a NEW slice. The step's
+// own criteria slice is shared by every segment expanded through that step - concurrently, by all BreadthFirst workers -
+// and, when the caller built several steps from one growing slice, with the next step: writing the segment constraint
+// into its spare capacity would hand one worker another worker's segment id and overwrite the next step's filter.
+// PrepareCriteria is verified with an empty frame: nothing that existed before the call is written.
+
+//@ import graph "github.com/specterops/dawgs/graph"
+//@ import query "github.com/specterops/dawgs/query"
+//@ import cypher "github.com/specterops/dawgs/cypher/models/cypher"
+
+//@ func query.Equals(reference graph.Criteria, value any) *cypher.Comparison
+//@   opaque
+//@   nomod
+//@   ensures result != nil
+//@ func query.StartID() *cypher.FunctionInvocation
+//@   opaque
+//@   nomod
+//@   ensures result != nil
+//@ func query.EndID() *cypher.FunctionInvocation
+//@   opaque
+//@   nomod
+//@   ensures result != nil
+
+//@ func (s expansion) PrepareCriteria(segment *graph.PathSegment) (graph.Criteria, error)
+//@   requires segment != nil && segment.Node != nil
+//@   nomod
+//@   ensures built: (s.direction == graph.DirectionOutbound || s.direction == graph.DirectionInbound) ==> result.1 == nil && result.0 != nil
+//@   ensures refused: s.direction != graph.DirectionOutbound && s.direction != graph.DirectionInbound ==> result.1 != nil
